@@ -570,6 +570,9 @@ func DecodeSLConfigDescriptor(tag byte, sr bits.SliceReader, maxNrBytes int) (De
 		return nil, fmt.Errorf("DecodeSLConfigDescriptor size %d exceeds maxNrBytes %d", size, maxNrBytes)
 	}
 	d.sizeFieldSizeMinus1 = sizeFieldSizeMinus1
+	if size < 1 { // the predefined byte is mandatory; it must not be taken from the bytes that follow
+		return nil, fmt.Errorf("SLConfigDescriptor size %d too small", size)
+	}
 
 	d.ConfigValue = sr.ReadUint8()
 	if size > 1 {
